@@ -250,6 +250,9 @@ func (e *env) run(cc ccase) {
 		switch cc.Op.Kind {
 		case "setcell":
 			win.SetCell(cc.Op.Col, cc.Op.Row, vxh.AppCell{G: cc.Op.G, Style: drawStyle}.ToVaxis())
+		case "setcell-empty":
+			// the zero Cell (what an untouched cell of a vxfw surface is)
+			win.SetCell(cc.Op.Col, cc.Op.Row, vaxis.Cell{})
 		case "setstyle":
 			win.SetStyle(cc.Op.Col, cc.Op.Row, st)
 		case "fill":
@@ -311,6 +314,9 @@ func (e *env) run(cc ccase) {
 		return tcell{}, false
 	}
 	switch cc.Op.Kind {
+	case "setcell-empty":
+		// judged by the common rules above: no panic, nothing outside the clip
+		return
 	case "setcell", "setstyle":
 		ax, ay := ox+cc.Op.Col, oy+cc.Op.Row
 		inside := cc.Op.Col >= 0 && cc.Op.Row >= 0 && cc.Op.Col < ww && cc.Op.Row < wh && clip.has(ax, ay)
@@ -667,6 +673,10 @@ func (c check) Run(w *harness.W, b harness.Batch) {
 							}
 							x, y := coords[r.Intn(len(coords))], coords[r.Intn(len(coords))]
 							e.run(ccase{Detached: det, Caps: caps, Chain: chain, Op: Op{Kind: "setstyle", Col: x, Row: y}})
+							for n := 0; n < 3; n++ {
+								x, y := coords[r.Intn(len(coords))], coords[r.Intn(len(coords))]
+								e.run(ccase{Detached: det, Caps: caps, Chain: chain, Op: Op{Kind: "setcell-empty", Col: x, Row: y}})
+							}
 							// depth 2 below this window
 							for n := 0; n < 3; n++ {
 								c2 := WinSpec{offs[r.Intn(len(offs))], offs[r.Intn(len(offs))], sizes[r.Intn(len(sizes))], sizes[r.Intn(len(sizes))], r.Intn(4) == 0}
@@ -747,7 +757,7 @@ func (c check) Run(w *harness.W, b harness.Batch) {
 			for d := 0; d < depth; d++ {
 				chain = append(chain, WinSpec{r.Range(-2, 8), r.Range(-2, 6), r.Range(-1, 9), r.Range(-1, 7), r.Intn(5) == 0})
 			}
-			kinds := []string{"setcell", "setcell", "setstyle", "fill", "clear", "print", "wrap", "println", "truncate"}
+			kinds := []string{"setcell", "setcell", "setcell-empty", "setstyle", "fill", "clear", "print", "wrap", "println", "truncate"}
 			op := Op{Kind: kinds[r.Intn(len(kinds))], Col: r.Range(-2, 9), Row: r.Range(-2, 9)}
 			op.G = []string{"x", "\u4f60", "e\u0301", " "}[r.Intn(4)]
 			if op.Kind == "fill" {
